@@ -34,11 +34,13 @@ pub fn oracle(req: &Req, got: &Resp) -> Result<(), String> {
         }
         "mem.zeroize" => {
             let want: Vec<u8> = match req.a[0][0] {
-                0 | 5 | 6 => vec![0u8; 32],
-                1 => { let mut v = Aff::IDENTITY.compress().to_vec(); v.push(1); v }
+                0 | 5 | 7 | 8 | 9 | 11 | 12 => vec![0u8; 32],
+                6 => { let mut v = vec![0u8; 32]; v.push(1); v }
+                1 => { let mut v = Aff::IDENTITY.compress().to_vec(); v.extend_from_slice(&[1, 1]); v }
                 2 => Aff::IDENTITY.compress().to_vec(),
-                3 => { let mut v = rist::encode(&Aff::IDENTITY).to_vec(); v.push(1); v }
+                3 => { let mut v = rist::encode(&Aff::IDENTITY).to_vec(); v.extend_from_slice(&[1, 1]); v }
                 4 => vec![0u8; 32],
+                10 => vec![1, 1],
                 _ => return Err("type".into()),
             };
             if *b == want { Ok(()) } else { Err(format!("zeroize() of type {} left {} (expected {})", req.a[0][0], crate::util::hex(b), crate::util::hex(&want))) }
